@@ -151,7 +151,26 @@ def collision_free(c):
 # ------------------------------------------------------------------------------------------------
 # generator
 # ------------------------------------------------------------------------------------------------
+VARIANTS = {"str": ["inst", "sub"], "int": ["number", "sub"], "float": ["number", "sub"], "bool": ["inst", "sub"]}
+
+
+def variant(n):
+    """how the implementation field of a str/int/float/bool leaf is made: None = the built-in class;
+    "number" = NumberField(int|float, ..) directly (storage type per instance); "sub" = a subclass of the built-in
+    class; "inst" = Field() with storage_type overridden on the instance (no validation of its own)"""
+    if n[0] == "L" and n[1] in VARIANTS and n[2] and n[2][-1] in ("inst", "sub", "number"):
+        return n[2][-1]
+    return None
+
+
 def rleaf(rng):
+    n = rleaf0(rng)
+    if n[1] in VARIANTS and rng.random() < 0.3:
+        n = ("L", n[1], tuple(n[2]) + (rng.choice(VARIANTS[n[1]]),), n[3])
+    return n
+
+
+def rleaf0(rng):
     r = rng.random()
     if r < 0.17:
         return ("L", "str", (), rng.choice(["d", None, ""]))
@@ -204,7 +223,8 @@ def rschema(rng, own, depth, budget):
         fields.append(("x", ("L", "int", (None, None), 1)))
     if rng.random() < 0.5:
         return ("S", own, fields, {"env": rng.choice(ENVS), "via": rng.choice(["attr", "item"]),
-                                   "probe": rng.random() < 0.5, "temp": rng.choice([None, None, "parent", "key"])})
+                                   "probe": rng.random() < 0.5, "temp": rng.choice([None, None, "parent", "key"]),
+                                   "dotted": rng.choice([None, None, "create", "into"])})
     return ("S", own, fields)
 
 
@@ -231,6 +251,10 @@ def set_value_for(rng, n):
     if n[0] != "L":
         return rng.choice([5, None, "s"])
     kind = n[1]
+    if variant(n) == "inst":
+        # Field() with an instance storage type validates nothing: only values the built-in class would accept
+        # unchanged are assigned (what the command line delivers: strings / switch booleans)
+        return rng.choice(["s1", "", None]) if kind == "str" else rng.choice([True, False, None])
     if kind == "str":
         return rng.choice(["s1", "", 5, None, True])
     if kind == "int":
@@ -385,6 +409,26 @@ FIXED = [
                ("flag", L("bool", (), False)),
                ("web", ("S", "web", [("port", L("int", (0, None), 80)), ("v", L("virtual", (42, False)))],
                         {"probe": True, "temp": "key"}))]),
+    # construction by dotted item assignment, 2..5 segments, creating the intermediate schemas / into existing ones,
+    # next to attribute construction
+    ("S", "", [("x", L("int", (None, None), 1)),
+               ("a", ("S", "a", [("b", ("S", "b", [("c", ("S", "c", [("d", ("S", "d", [("n", L("int", (0, 9), 1)),
+                                                                                         ("on", L("bool", (), True))])),
+                                                                     ("s", L("str", (), "d"))]))])),
+                                 ("f", L("float", (), 1.5))], {"dotted": "create"})),
+               ("db", ("S", "db", [("host", L("str", (), "h")),
+                                   ("pool", ("S", "pool", [("size", L("int", (1, None), 5)),
+                                                           ("ct", ("T", ("S", "", [("n", L("int", (None, None), 1))])))]))],
+                       {"dotted": "into", "via": "item"})),
+               ("web", ("S", "web", [("tls", ("S", "tls", [("on", L("bool", (), False))], {"dotted": "create"})),
+                                     ("port", L("int", (0, None), 80))]))]),
+    # field classes whose storage type is per instance / inherited: NumberField(int|float) directly, subclasses of the
+    # built-in classes, Field() with storage_type overridden on the instance
+    ("S", "", [("n", L("int", (0, 99, "number"), 3)), ("r", L("float", ("number",), 1.5)),
+               ("si", L("int", (None, None, "sub"), 1)), ("sf", L("float", ("sub",), None)),
+               ("ss", L("str", ("sub",), "d")), ("sb", L("bool", ("sub",), True)),
+               ("is_", L("str", ("inst",), "d")), ("ib", L("bool", ("inst",), False)),
+               ("sub", ("S", "sub", [("n2", L("int", (None, 99, "number"), None)), ("ib2", L("bool", ("inst",), None))]))]),
     # keys that are public members of Schema / of Config
     ("S", "", [("validator", L("int", (None, None), 1)), ("make_type", L("bool", (), True)),
                ("upload", ("S", "upload", [("validator", L("str", (), "v")), ("get_all_fields", L("bool", (), None)),
@@ -411,7 +455,7 @@ def generate(rng, tier):
     sub1 = FIXED[1][2][2][1]
     cases.append(make_case(det, sub1, [""], "argv"))
     cases.append(make_case(det, sub1[2][1][1], ["", "sub"], "argv"))
-    cases.append(make_case(det, FIXED[9][2][1][1], ["root"], "empty"))
+    cases.append(make_case(det, FIXED[11][2][1][1], ["root"], "empty"))
     n = 1000 if tier == "quick" else 12000
     while len(cases) < n:
         r = rng.random()
@@ -460,6 +504,61 @@ def probe_names(sub):
         pass
 
 
+def walk_leaves(node, prefix=""):
+    """(relative dotted path, node) of every non-schema field below a schema node, in declaration order"""
+    out = []
+    for key, ch in node[2]:
+        if ch[0] == "S":
+            out.extend(walk_leaves(ch, prefix + key + "."))
+        else:
+            out.append((prefix + key, ch))
+    return out
+
+
+_SUBCLASSES = {}
+
+
+def subclass_of(cls):
+    if cls not in _SUBCLASSES:
+        _SUBCLASSES[cls] = type("My" + cls.__name__, (cls,), {})
+    return _SUBCLASSES[cls]
+
+
+def make_field(ch, all_schemas):
+    import cincoconfig as cc
+    if ch[0] == "T":
+        t = build_impl(ch[1], None, all_schemas)
+        return cc.make_type(t, "TT")
+    _, kind, params, default = ch
+    var = variant(ch)
+    if var == "inst":
+        f = cc.Field(default=default)
+        f.storage_type = {"str": str, "bool": bool}[kind]     # storage type overridden on the instance
+        return f
+    if kind == "str":
+        return (subclass_of(cc.StringField) if var == "sub" else cc.StringField)(default=default)
+    if kind == "int":
+        if var == "number":
+            return cc.NumberField(int, min=params[0], max=params[1], default=default)
+        return (subclass_of(cc.IntField) if var == "sub" else cc.IntField)(min=params[0], max=params[1], default=default)
+    if kind == "float":
+        if var == "number":
+            return cc.NumberField(float, default=default)
+        return (subclass_of(cc.FloatField) if var == "sub" else cc.FloatField)(default=default)
+    if kind == "bool":
+        return (subclass_of(cc.BoolField) if var == "sub" else cc.BoolField)(default=default)
+    if kind == "any":
+        return cc.Field(default=default)
+    if kind == "other":
+        return {"list": lambda: cc.ListField(cc.IntField(), default=default),
+                "dict": lambda: cc.DictField(default=default),
+                "bytes": lambda: cc.BytesField(default=default)}[params[0]]()
+    if kind == "virtual":
+        val = params[0]
+        return cc.VirtualField(lambda cfg, _v=val: _v, (lambda cfg, v: None) if params[1] else None)
+    return cc.InstanceMethodField(lambda cfg: "hi")
+
+
 def build_impl(node, own=None, all_schemas=None):
     """node -> Schema (fields added through attribute assignment, the documented way)"""
     import cincoconfig as cc
@@ -492,6 +591,15 @@ def build_impl(node, own=None, all_schemas=None):
     pending = {}
     fields = node[2]
     for idx, (key, ch) in enumerate(fields):
+        if ch[0] == "S" and opts_of_node(ch).get("dotted"):
+            # the whole sub-tree is built from HERE by dotted item assignment  s["key.b.c.d"] = field  (2..5
+            # segments): "create" lets the first assignment create `key` and every intermediate schema, "into"
+            # registers an explicitly created empty schema first and assigns into it
+            if opts_of_node(ch)["dotted"] == "into":
+                register(key, cc.Schema())
+            for rel, leaf in walk_leaves(ch):
+                s[key + "." + rel] = make_field(leaf, all_schemas)
+            continue
         if ch[0] == "S":
             sub = pending.pop(key) if key in pending else prebuild(ch)
             register(key, sub)
@@ -499,54 +607,33 @@ def build_impl(node, own=None, all_schemas=None):
         # a later sibling sub-schema is first attached under THIS key, read, and then this key is overwritten by
         # its real field; the sub-schema is attached under its own key when its turn comes (last attachment wins)
         for k2, ch2 in fields[idx + 1:]:
-            if ch2[0] == "S" and opts_of_node(ch2).get("temp") == "key" and k2 not in pending:
+            if (ch2[0] == "S" and opts_of_node(ch2).get("temp") == "key" and not opts_of_node(ch2).get("dotted")
+                    and k2 not in pending):
                 sub2 = prebuild(ch2)
                 register(key, sub2)
                 probe_names(sub2)
                 pending[k2] = sub2
                 break
-        if ch[0] == "T":
-            t = build_impl(ch[1], None, all_schemas)
-            register(key, cc.make_type(t, "TT"))
-        else:
-            _, kind, params, default = ch
-            if kind == "str":
-                f = cc.StringField(default=default)
-            elif kind == "int":
-                f = cc.IntField(min=params[0], max=params[1], default=default)
-            elif kind == "float":
-                f = cc.FloatField(default=default)
-            elif kind == "bool":
-                f = cc.BoolField(default=default)
-            elif kind == "any":
-                f = cc.Field(default=default)
-            elif kind == "other":
-                f = {"list": lambda: cc.ListField(cc.IntField(), default=default),
-                     "dict": lambda: cc.DictField(default=default),
-                     "bytes": lambda: cc.BytesField(default=default)}[params[0]]()
-            elif kind == "virtual":
-                val = params[0]
-                f = cc.VirtualField(lambda cfg, _v=val: _v, (lambda cfg, v: None) if params[1] else None)
-            else:
-                f = cc.InstanceMethodField(lambda cfg: "hi")
-            register(key, f)
+        register(key, make_field(ch, all_schemas))
     return s
 
 
 def class_tag(f):
     import cincoconfig as cc
     from cincoconfig.core import ConfigTypeField
-    t = type(f)
     table = [(cc.Schema, "schema"), (ConfigTypeField, "cfgtype"), (cc.VirtualField, "virtual"),
              (cc.InstanceMethodField, "method"), (cc.BoolField, "bool"), (cc.IntField, "int"),
              (cc.FloatField, "float"), (cc.StringField, "str"), (cc.ListField, "other"), (cc.DictField, "other"),
              (cc.BytesField, "other")]
     for cls, tag in table:
-        if t is cls:
+        if isinstance(f, cls):
             return tag
-    if t is cc.Field:
-        return "any"
-    return "unknown:" + t.__name__
+    if type(f) is cc.NumberField:
+        return {int: "int", float: "float"}.get(f.type_cls, "unknown:number")
+    if type(f) is cc.Field:
+        st = vars(f).get("storage_type")       # overridden on the instance
+        return {str: "str", bool: "bool", None: "any"}.get(st, "unknown:field")
+    return "unknown:" + type(f).__name__
 
 
 def render(v):
@@ -600,6 +687,14 @@ def _impl(c):
             cur = nxt
         probe_names(handed)
         setattr(cur, c["schema"][1], handed)
+    def all_below(sch, acc):
+        if not any(sch is x for x in acc):
+            acc.append(sch)
+        for f in sch._fields.values():
+            if isinstance(f, cc.Schema):
+                all_below(f, acc)
+        return acc
+    schemas = all_below(handed, schemas)       # incl. the schemas dotted assignment created implicitly
     tables = [(s, list(s._fields)) for s in schemas]
 
     def restore():
@@ -856,6 +951,8 @@ def tags(c, obs):
     t.add("depth=%d" % max(p.count(".") + 1 for p, _ in en))
     for _, n in en:
         t.add("kind=" + (n[1] if n[0] == "L" else {"S": "schema", "T": "cfgtype"}[n[0]]))
+        if variant(n):
+            t.add("class=%s/%s" % (n[1], variant(n)))
     if c["argv"] is None:
         t.add("ns-handmade")
     elif not c["argv"]:
@@ -883,6 +980,8 @@ def tags(c, obs):
                     out.add("read-before-attach")
                 if n[3].get("temp"):
                     out.add("reattached=" + n[3]["temp"])
+                if n[3].get("dotted"):
+                    out.add("dotted-construction=" + n[3]["dotted"])
             for _, ch in n[2]:
                 out |= envs(ch)
         return out
